@@ -1330,10 +1330,10 @@ fn case_raw(rng: &mut Rng, dbg: bool, len: usize, rt: &tokio::runtime::Runtime) 
                             from.extend(grp);
                         }
                     }
-                    let ty = if rng.chance(1, 12) { TransactionType::SPV } else { TransactionType::Normal };
+                    let ty = if rng.chance(1, 7) { TransactionType::SPV } else { TransactionType::Normal };
                     let mut t = mk_tx(ty, from, to);
                     if ty == TransactionType::SPV {
-                        t.txs_replacements = rng.range(0, 3) as u32;
+                        t.txs_replacements = *rng.pick(&[0u32, 2, 3, 5]);
                     }
                     txs.push(t);
                 }
@@ -1641,6 +1641,23 @@ fn case_scripted(which: u64, dbg: bool, rt: &tokio::runtime::Runtime) -> Rec {
             }
             sim.rec
         }
+        7 => {
+            // lite block: a merged SPV placeholder (txs_replacements = 3) ahead of the payment to
+            // the wallet; the recorded transaction ordinal must be that of the full block, or the
+            // wallet later builds an input the ledger does not have
+            let mut sim = Sim::new("scripted-spv", 5, dbg);
+            let me = sim.pk;
+            let mut spv = mk_tx(TransactionType::SPV, vec![], vec![]);
+            spv.txs_replacements = 3;
+            let pay = mk_tx(TransactionType::Issuance, vec![], vec![mk_slip(&me, 1000, SlipType::Normal)]);
+            let mut spv2 = mk_tx(TransactionType::SPV, vec![], vec![]);
+            spv2.txs_replacements = 2;
+            let pay2 = mk_tx(TransactionType::Issuance, vec![], vec![mk_slip(&pk2, 5, SlipType::Normal), mk_slip(&me, 70, SlipType::Normal)]);
+            let b1 = mk_block(1, vec![spv, pay, spv2, pay2], &me, true);
+            sim.wind(b1, 5, true);
+            sim.create(CreateCall { keys: vec![pk2], payments: vec![1050], fee: 3, latest: 1, gp: 5, single: true }, true);
+            sim.rec
+        }
         _ => {
             // unwind re-adds a spent input under the spending block's id
             let mut sim = Sim::new("scripted-stale", 5, dbg);
@@ -1885,7 +1902,7 @@ fn main() {
     let rt = tokio::runtime::Builder::new_current_thread().enable_all().build().unwrap();
 
     let mut recs: Vec<Rec> = vec![];
-    for which in 0..7 {
+    for which in 0..8 {
         recs.push(case_scripted(which, dbg, &rt));
     }
     let n_chain = if thorough { 1300 } else { 220 };
